@@ -27,14 +27,11 @@ Fixpoint dedup_str (seen : list string) (l : list string) : list string :=
   | x :: r => if mem_str x seen then dedup_str seen r else x :: dedup_str (x :: seen) r
   end.
 
-(* slices.Compact: drop ADJACENT duplicates *)
-Fixpoint compact (l : list Z) : list Z :=
+(* MultiplexerSignal.InsertSignal drops duplicated group ids (first occurrence kept) *)
+Fixpoint dedup_z (seen : list Z) (l : list Z) : list Z :=
   match l with
   | [] => []
-  | x :: r => match r with
-              | [] => [x]
-              | y :: _ => if x =? y then compact r else x :: compact r
-              end
+  | x :: r => if mem_z x seen then dedup_z seen r else x :: dedup_z (x :: seen) r
   end.
 
 Fixpoint replace_nth {A} (n : nat) (x : A) (l : list A) : list A :=
@@ -257,7 +254,7 @@ Definition mux_insert (es : list enum_def) (mx : signal) (kids : list signal) (c
         do _ <- verify_insert es (s_gsize mx) kids size rel;
         Ok (place c rel (Some (s_id mx)) [])
     | _ =>
-        let gids := compact group_ids in
+        let gids := dedup_z [] group_ids in
         do _ <- fold_left (fun acc g =>
                   do _ <- acc;
                   if (g <? 0) || (g >=? s_gcount mx) then Err "group id out of bounds"
@@ -266,10 +263,13 @@ Definition mux_insert (es : list enum_def) (mx : signal) (kids : list signal) (c
         Ok (place c rel (Some (s_id mx)) (sort_by Z.ltb gids))
     end.
 
-Fixpoint expand_ranges (fuel : nat) (rs : list (Z * Z)) : list Z :=
+(* the range loop of importMuxSignal: ids from..to, refused at the first id >= groupCount *)
+Fixpoint expand_ranges (gcount : Z) (rs : list (Z * Z)) : result (list Z) :=
   match rs with
-  | [] => []
-  | (from, to) :: r => zrange from (Z.to_nat (to - from + 1)) ++ expand_ranges fuel r
+  | [] => Ok []
+  | (from, to) :: r =>
+      if (from <=? to) && (to >=? gcount) then Err "group id out of bounds"
+      else do rest <- expand_ranges gcount r; Ok (zrange from (Z.to_nat (to - from + 1)) ++ rest)
   end.
 
 (* importMuxSignal *)
@@ -290,13 +290,13 @@ Definition import_mux_signal (st : istate) (mpos : nat) (msgid : Z) (id : Z) (dm
     do kb <- fold_left (fun acc '((s, below), ds) =>
                do (kids, belows) <- acc;
                let rel := get_start_bit ds - mstart - msize in
-               let gids :=
+               do gids <-
                  match lookup key_eqb (msgid, s_name s) (is_ext_muxes st) with
                  | Some em =>
-                     let g := expand_ranges O (em_ranges em) in
-                     if Z.of_nat (length g) =? gcount then [] else g
-                 | None => if ds_muxed ds then [ds_switch ds] else []
-                 end in
+                     do g <- expand_ranges gcount (em_ranges em);
+                     Ok (if Z.of_nat (length g) =? gcount then [] else g)
+                 | None => Ok (if ds_muxed ds then [ds_switch ds] else [])
+                 end;
                do c <- mux_insert es mx kids s rel gids;
                Ok (kids ++ [c], belows ++ below))
              muxed (Ok ([], []));
@@ -460,19 +460,19 @@ Definition try_assign (name : string) (d : attr_def) (v : attr_val) (l : list at
   if check_value d v then Ok (assign name d v l) else Err "attribute value does not conform".
 
 (* the value switch of importAttributes *)
-Definition attr_value (d : attr_def) (av : dattrval) : attr_val :=
+Definition attr_value (d : attr_def) (av : dattrval) : result attr_val :=
   match av_type av with
-  | VString => ValString (av_str av)
+  | VString => Ok (ValString (av_str av))
   | VInt =>
       match d with
       | DefEnum _ vals =>
-          if (av_int av <? 0) || (av_int av >=? Z.of_nat (length vals)) then ValString EmptyString
-          else ValString (nth (Z.to_nat (av_int av)) vals EmptyString)
-      | DefFloat _ _ _ => ValFloat (fl_of_Z (av_int av))
-      | _ => ValInt (av_int av)
+          if (av_int av <? 0) || (av_int av >=? Z.of_nat (length vals)) then Err "enum value index out of bounds"
+          else Ok (ValString (nth (Z.to_nat (av_int av)) vals EmptyString))
+      | DefFloat _ _ _ => Ok (ValFloat (fl_of_Z (av_int av)))
+      | _ => Ok (ValInt (av_int av))
       end
-  | VHex => ValInt (av_hex av)
-  | VFloat => ValFloat (av_fl av)
+  | VHex => Ok (ValInt (av_hex av))
+  | VFloat => Ok (ValFloat (av_fl av))
   end.
 
 (* special_attributes.go *)
@@ -515,22 +515,21 @@ Definition set_s_special (s : signal) (sv : fl) (st : Z) : signal :=
            (s_scale s) (s_offset s) (s_min s) (s_max s) (s_unit s) (s_enum s) (s_gcount s) (s_gsize s)
            (s_desc s) sv st (s_attrs s).
 
-(* value.(int) / value.(string) type assertions panic in Go when the dynamic type differs: the
-   model reports an error (a Go panic is never "success"; C09 owns the panic itself) *)
+(* a well-known attribute value of the wrong dynamic type is an error *)
 Definition assign_message (name : string) (d : attr_def) (v : attr_val) (m : message) : result message :=
   match special_of name with
   | Some SpMsgCycle =>
       match v with ValInt z => Ok (set_m_times m z (m_delay m) (m_startdelay m) (m_sendtype m))
-                 | _ => Err "panic: interface conversion" end
+                 | _ => Err "well-known attribute value of the wrong type" end
   | Some SpMsgDelay =>
       match v with ValInt z => Ok (set_m_times m (m_cycle m) z (m_startdelay m) (m_sendtype m))
-                 | _ => Err "panic: interface conversion" end
+                 | _ => Err "well-known attribute value of the wrong type" end
   | Some SpMsgStartDelay =>
       match v with ValInt z => Ok (set_m_times m (m_cycle m) (m_delay m) z (m_sendtype m))
-                 | _ => Err "panic: interface conversion" end
+                 | _ => Err "well-known attribute value of the wrong type" end
   | Some SpMsgSend =>
       match v with ValString s => Ok (set_m_times m (m_cycle m) (m_delay m) (m_startdelay m) (msg_send_type_from_dbc s))
-                 | _ => Err "panic: interface conversion" end
+                 | _ => Err "well-known attribute value of the wrong type" end
   | Some _ => Ok m
   | None => do a <- try_assign name d v (m_attrs m); Ok (set_m_attrs m a)
   end.
@@ -545,7 +544,7 @@ Definition assign_signal (name : string) (d : attr_def) (v : attr_val) (s : sign
       end
   | Some SpSigSend =>
       match v with ValString t => Ok (set_s_special s (s_startval s) (sig_send_type_from_dbc t))
-                 | _ => Err "panic: interface conversion" end
+                 | _ => Err "well-known attribute value of the wrong type" end
   | Some _ => Ok s
   | None => do a <- try_assign name d v (s_attrs s); Ok (set_s_attrs s a)
   end.
@@ -584,7 +583,7 @@ Definition import_attributes (sigmap : list (key * (nat * Z))) (d : doc) (b : bu
     match lookup String.eqb name attrs with
     | None => Ok b0
     | Some ad =>
-        let v := attr_value ad av in
+        do v <- attr_value ad av;
         match av_kind av with
         | OGeneral => do a <- try_assign name ad v (b_attrs b0); Ok (set_b_attrs b0 a)
         | ONode =>
